@@ -1,13 +1,18 @@
 (** C11 -- Clones are faithful and independent; supplied data is never mutated.
     Statements only; proofs are in Proofs/C11_clone.v.
 
-    What is proved is the "faithful" half on the pure model.  Independence of
-    original and clone and non-mutation of supplied data are statements about
-    object identity, which a pure functional model cannot express (they would be
-    vacuously true): they are checked by the snapshot / object-identity test of
-    the correspondence harness (harness/props/c11.py), and the evidence says so. *)
+    Two models.  The pure one (ConfigModel) carries the "faithful" half.
+    Independence and non-mutation are statements about object identity, which a
+    pure model cannot express; they are PROVED on the explicit-heap model of
+    merge_dicts / copy_dict / clone's per-level copy (Model/HeapMerge.v: a heap
+    of dict objects, references, allocation) in the second half of this file, and
+    the heap model is tied to the real code by comparing the sharing relation
+    (which paths denote the same dict object, which objects changed) observed
+    with id() on inputs that deliberately share sub-dict objects.  The parts of
+    Config outside these three functions (proxies writing to _modifications,
+    reloads) are covered by the snapshot / object-identity test of the harness. *)
 From InvokeVerif Require Import Common.Tree Common.StrUtil Model.MergeModel Model.ConfigModel
-     Spec.C03Spec Proofs.C03_order Proofs.C11_clone.
+     Spec.C03Spec Proofs.C03_order Proofs.C11_clone Model.HeapMerge Proofs.C11_heap.
 
 (** [copy_dict] (the recursive copy used for every level) returns an equal
     dict: same keys, same order, same values, at every depth. *)
@@ -117,3 +122,82 @@ Example C11_example_guard :
   | Err _ => False
   end.
 Proof. vm_compute. repeat split; reflexivity. Qed.
+
+(** * Independence and non-mutation on the explicit heap
+
+    [hwf h]: every reference of the heap points to an object of the heap.
+    [reach h a x]: object [x] is reachable from object [a] through dict values.
+    [merge_h fuel b u h = Ok h']: merge_dicts(base, updates) ran to completion
+    on the objects at addresses [b], [u] (no type conflict, no dict resized under
+    iteration, enough fuel), leaving heap [h'].  No hypothesis restricts sharing
+    between or inside [base] and [updates]. *)
+
+(** merge_dicts writes only objects reachable from [base]: every other object
+    -- in particular everything hanging off [updates] only -- is bit-for-bit
+    unchanged. *)
+Theorem C11_merge_writes_only_base : forall f b u h h',
+  hwf h -> b < List.length h -> merge_h f b u h = Ok h' ->
+  forall z, z < List.length h -> ~ reach h b z -> hget h' z = hget h z.
+Proof. exact merge_writes_only_base. Qed.
+
+(** Everything reachable from [base] afterwards was reachable from it before or
+    was allocated by the call: no object of [updates] (or of anything else) is
+    adopted by reference. *)
+Theorem C11_merge_adopts_nothing : forall f b u h h',
+  hwf h -> b < List.length h -> merge_h f b u h = Ok h' ->
+  forall x, reach h' b x -> reach h b x \/ List.length h <= x.
+Proof. exact merge_no_adoption. Qed.
+
+(** If [base] and [updates] shared no object before, [updates] is untouched,
+    reaches exactly what it reached, and they share no object afterwards. *)
+Theorem C11_merge_no_new_sharing : forall f b u h h',
+  hwf h -> b < List.length h -> u < List.length h -> merge_h f b u h = Ok h' ->
+  (forall z, reach h b z -> reach h u z -> False) ->
+  (forall z, reach h u z -> hget h' z = hget h z) /\
+  (forall z, reach h' u z <-> reach h u z) /\
+  (forall z, reach h' b z -> reach h' u z -> False).
+Proof. exact merge_no_new_sharing. Qed.
+
+(** copy_dict: the result is a new object, no existing object changes, and
+    every object reachable from the result was allocated by the call -- whatever
+    sharing the source had. *)
+Theorem C11_copy_fresh : forall f src h a h',
+  hwf h -> copy_h f src h = Ok (a, h') ->
+  a = List.length h /\ hwf h' /\ List.length h < List.length h' /\
+  (forall z, z < List.length h -> hget h' z = hget h z) /\
+  (forall x, reach h' a x -> List.length h <= x).
+Proof. exact copy_fresh. Qed.
+
+(** clone's copies of the dict-valued levels: no existing object changes, each
+    copy consists of fresh objects only, and the copies are pairwise disjoint. *)
+Theorem C11_clone_levels_fresh : forall f roots h l h',
+  hwf h -> clone_levels_h f roots h = Ok (l, h') ->
+  hwf h' /\ List.length h <= List.length h' /\
+  (forall z, z < List.length h -> hget h' z = hget h z) /\
+  Forall (fun a => a < List.length h' /\ forall x, reach h' a x -> List.length h <= x) l /\
+  ForallOrdPairs (fun a1 a2 => forall x, reach h' a1 x -> reach h' a2 x -> False) l.
+Proof. exact clone_levels_fresh. Qed.
+
+(** The clone's levels share no object with anything that existed before the
+    clone -- the original's levels and every caller-held dict included. *)
+Theorem C11_clone_shares_nothing : forall f roots h l h',
+  hwf h -> clone_levels_h f roots h = Ok (l, h') ->
+  forall r a x, In a l -> r < List.length h -> reach h' r x -> reach h' a x -> False.
+Proof. exact clone_shares_nothing. Qed.
+
+(** Non-vacuity: a heap where [updates] shares one sub-dict between two keys and
+    [base] holds an empty placeholder section; the merge succeeds, the
+    placeholder is filled by value, the shared object is neither written nor
+    adopted. *)
+Example C11_example_heap :
+  let h := [ [("s", HRef 2); ("k", HLeaf (VInt 1))];          (* 0: base *)
+             [("s", HRef 3); ("t", HRef 3)];                  (* 1: updates, sharing object 3 *)
+             [];                                              (* 2: base.s, empty placeholder *)
+             [("x", HLeaf (VInt 7))] ] in                     (* 3 *)
+  merge_h 8 0 1 h =
+    Ok [ [("s", HRef 2); ("k", HLeaf (VInt 1)); ("t", HRef 4)];
+         [("s", HRef 3); ("t", HRef 3)];
+         [("x", HLeaf (VInt 7))];
+         [("x", HLeaf (VInt 7))];
+         [("x", HLeaf (VInt 7))] ].
+Proof. vm_compute. reflexivity. Qed.
